@@ -11,7 +11,9 @@ metamodel's generator interleaved with the creations.
      else its positional value, else the default of its declared type (False / 0 / 0.0 / '' with the right
      Python type; for UNIQUE_ID a value handed out by the generator); a class with an attribute of unknown
      type is rejected with MetaException and a class without one is not; defaulted ids are never null
-     (0 / None) and pairwise distinct within the metamodel; with the integer generator the values handed out are
+     (0 / None) and pairwise distinct within the metamodel, and differ from every id supplied explicitly for another
+     instance (signature explicit-id-collision - an OPEN finding: the library does not reserve supplied ids; family
+     `explicit`); with the integer generator the values handed out are
      1, 2, 3, … in order (an explicitly supplied id still consumes one); `peek` returns what the next
      `next` / next default returns and never advances.
   K  (correspondence): the result of every op and the `__dict__` (keys in order, values) of every created
@@ -45,16 +47,21 @@ RULE = ('(1) exhaustive: every interleaving of peek / next of length <= 9 (quick
         'application drops its reference to the MetaModel at a random point (only metaclasses and instances are kept, '
         'gc.collect()) and goes on through metaclass.new() / metaclass() / get_metaclass(inst).new() / '
         'get_metamodel(inst); generator j hands out 100000*j+1, +2, ...; '
+        '(5) explicit ids inside the generator\'s future range (D and K): new(A, Id=<one of the next 5 values the generator will '
+        'hand out>) interleaved with creations that omit the id, integer and counting generators (open finding '
+        'explicit-id-collision); '
         '(4) two metamodels in one process (D only) with the same classes, separate generators or one shared generator '
         'object, 4-14 ops of new (through metamodel / metaclass / call) / fresh generator / take over the other one\'s generator / '
         'load short rows, in either metamodel; '
         'non-trivial = at least two instances with defaulted ids and one explicit argument; distinct = distinct op sequence')
 EXHAUSTIVE = {'quick': True, 'thorough': True}
-ASSUMPTIONS = ['READING of "never repeats within the metamodel": ids LEFT TO THEIR DEFAULT never repeat among themselves and are '
-               'never null (theorems ids_fresh / ids_fresh_history, predicate D).  An id supplied EXPLICITLY by the caller is '
-               'not drawn from the generator and may coincide with a defaulted one (IntegerGenerator: new(A, Id=2); new(A) '
-               'gives two instances with Id 2); a defaulted id differs from every explicit id outside the values the '
-               'generator hands out (ids_fresh_vs_explicit).  D does not flag such a coincidence',
+ASSUMPTIONS = ['the theorems prove "never repeats" for ids LEFT TO THEIR DEFAULT (ids_fresh / ids_fresh_history) and that a '
+               'defaulted id differs from every explicitly supplied id outside the values the generator hands out '
+               '(ids_fresh_vs_explicit).  An id supplied EXPLICITLY inside the generator\'s range is not reserved by the library: '
+               'IntegerGenerator, new(A, Id=2); new(A) gives two instances with Id 2.  That contradicts the property as worded and '
+               'is the OPEN finding explicit-id-collision: the family `explicit` generates it and D reports exactly this symptom '
+               '(a defaulted id equal to an explicitly supplied id of ANOTHER instance) under that signature; a repeat among '
+               'defaulted ids is the ordinary failure id-repeats',
                'type names are ASCII (str.upper on ASCII; e.g. the dotless i of a Turkish-spelt INTEGER upper-cases to I in '
                'Python and would be accepted by the code, rejected by the model)',
                'uuid4 values are treated as an injective never-null stream (probabilistic assumption; values are never '
@@ -251,6 +258,43 @@ def _hist_case(r):
     return {'gen': 'user', 'start': 1, 'step': 1, 'fam': 'hist', 'ops': ops}
 
 
+def _explicit_case(r):
+    """family `explicit` (D and K): callers SUPPLY unique ids that lie in the generator's future range - `new('A', Id=k)` with k
+    one of the next values the generator will hand out - and go on creating instances with the id omitted.  The library does
+    not reserve supplied ids, so a later defaulted id equals the supplied one: two instances of the metamodel carry the same
+    id ("never repeats within the metamodel" fails as worded).  D reports exactly that symptom as `explicit-id-collision`
+    (open finding); a repeat among DEFAULTED ids stays `id-repeats`."""
+    case = {'gen': 'int'} if r.random() < 0.6 else {'gen': 'user', 'start': r.randint(1, 9), 'step': r.randint(1, 3)}
+    value = (lambda k: k + 1) if case['gen'] == 'int' else (lambda k: case['start'] + case['step'] * k)
+    classes, ops = [], []
+    for c in range(r.randint(1, 2)):
+        attrs = [['Id', respell(r, 'UNIQUE_ID')]]
+        if r.random() < 0.4:
+            attrs.append(['N', respell(r, 'INTEGER')])
+        if r.random() < 0.4:
+            attrs.append(['Id2', respell(r, 'UNIQUE_ID')])
+        r.shuffle(attrs)
+        classes.append(('E%d' % c, attrs))
+        ops.append(['define', 'E%d' % c, attrs])
+    draws = 0
+    for _ in range(r.randint(2, 9)):
+        kind, attrs = r.choice(classes)
+        n_ids = sum(1 for a, t in attrs if t.upper() == 'UNIQUE_ID')
+        kws = []
+        if r.random() < 0.45:
+            # an id the generator has not handed out yet (or is handing out in this very call)
+            a = r.choice([a for a, t in attrs if t.upper() == 'UNIQUE_ID'])
+            kws.append([respell(r, a), value(draws + r.randint(0, 4))])
+        ops.append(['new', respell(r, kind), [], kws])
+        draws += n_ids
+        if r.random() < 0.15:
+            ops.append([r.choice(['peek', 'next'])])
+            draws += 1 if ops[-1][0] == 'next' else 0
+    case['fam'] = 'explicit'
+    case['ops'] = ops
+    return case
+
+
 def _twin_case(r):
     """D-only family: TWO metamodels in one process that define the same classes (same kinds, same attribute names).  They
     start with separate generators or SHARE one generator object; during the history either one gets a fresh generator
@@ -299,6 +343,9 @@ def generate(ctx):
     hr = ctx.rng.fork('hist')
     for i in range(ctx.pick(1500, 20000)):
         yield _hist_case(hr.fork(i))
+    er = ctx.rng.fork('explicit')
+    for i in range(ctx.pick(1500, 15000)):
+        yield _explicit_case(er.fork(i))
     tr = ctx.rng.fork('twin')
     for i in range(ctx.pick(1200, 15000)):
         yield _twin_case(tr.fork(i))
@@ -644,14 +691,21 @@ def run_impl(case):
     stats = {'cases_' + case['fam']: 1, 'gen_' + case['gen']: 1}
     draws = 0             # values handed out so far (oracle)
     defaulted = []        # all defaulted ids of successfully created instances
+    id_log = []           # (instance number, attribute, value, 'explicit' | 'defaulted') of every unique id held by an instance
+    n_insts = 0
     pending_peek = None   # (value, op index) of the last peek not yet followed by a draw
     n_defaulted_insts = 0
     explicit_seen = False
 
     def fail(sig, what, upto):
-        if len(fails) < 4:
-            fails.append({'sig': sig, 'what': '%s; generator %s; history: %s'
-                          % (what, case['gen'], dumps(_ops_sexp(case['ops'][:upto + 1])))})
+        # the open finding is listed once per case and does not use up the cap of the other failures
+        if sig == 'explicit-id-collision':
+            if any(f['sig'] == sig for f in fails):
+                return
+        elif len([f for f in fails if f['sig'] != 'explicit-id-collision']) >= 4:
+            return
+        fails.append({'sig': sig, 'what': '%s; generator %s; history: %s'
+                      % (what, case['gen'], dumps(_ops_sexp(case['ops'][:upto + 1])))})
 
     exact = True          # does the oracle still know how many values the generator has handed out?
 
@@ -753,6 +807,20 @@ def run_impl(case):
                 if given:
                     explicit_seen = True
                 got_default_id = False
+                me = n_insts
+                n_insts += 1
+
+                def collisions(value, how, a):
+                    """an id LEFT TO ITS DEFAULT equal to an id SUPPLIED EXPLICITLY for another instance of the metamodel (in
+                    either order of creation): the library does not reserve supplied ids"""
+                    if value is None or isinstance(value, bool) or not isinstance(value, int) or value == 0:
+                        return
+                    for (j, b, w, how2) in id_log:
+                        if j != me and w == value and type(w) is type(value) and {how, how2} == {'explicit', 'defaulted'}:
+                            fail('explicit-id-collision', 'new(%r): %s unique id %r of %r equals the %s id of %r of instance number %d: '
+                                 'two instances of the metamodel carry the same id' % (op[1], how, value, a, how2, b, j), n)
+                            stats['explicit_id_collisions'] = stats.get('explicit_id_collisions', 0) + 1
+                            return
                 # ids are drawn for every non-referential UNIQUE_ID attribute, in order, whether or not overridden
                 for a, t in plain:
                     T = t.upper()
@@ -764,6 +832,8 @@ def run_impl(case):
                                  % (op[1], op[2], op[3], a, have, want), n)
                         if T == 'UNIQUE_ID':
                             unobserved_draws()
+                            collisions(have, 'explicit', a)
+                            id_log.append((me, a, have, 'explicit'))
                     elif T == 'UNIQUE_ID':
                         drawn(have, n)
                         got_default_id = True
@@ -773,6 +843,8 @@ def run_impl(case):
                             fail('id-repeats', 'new(%r): defaulted unique id %r of %r was already handed out in this '
                                  'metamodel' % (op[1], have, a), n)
                         defaulted.append(have)
+                        collisions(have, 'defaulted', a)
+                        id_log.append((me, a, have, 'defaulted'))
                     else:
                         want = KNOWN[T]
                         if have != want or type(have) is not type(want):
